@@ -91,6 +91,7 @@ func corpus() []scen.Scenario {
 	for _, kind := range []string{"race", "conf"} {
 		out = append(out, special(kind, 0)...)
 	}
+	out = append(out, selfEnd(0))
 	return out
 }
 
@@ -109,7 +110,19 @@ func special(kind string, variant int) []scen.Scenario {
 			Ops: ops("trig", v%3, "wait", 2, "stall", 400+50*(v%3), "wait", 6)},
 		{Kind: kind, Source: "simpulse", Nchan: 4, Pulse: 2000, Seed: uint64(31 + v),
 			Ops: ops("wait", 2, "emt", 300, "wait", 6, "emt", 200, "wait", 6, "sendall", "emt", 300-10*v, "wait", 4)},
+		// group triggering: primaries in channel 0 only, secondaries in all the others, files being written
+		{Kind: kind, Source: []string{"triangle", "simpulse"}[v%2], Nchan: 8, Seed: uint64(41 + v),
+			Ops: ops("trig1", "couple", "wait", 2, "wstart", v%2, "wait", 8+2*v, "wstop")},
+		// the data files cannot be written (/dev/full): the file writer goroutines meet the error by themselves
+		{Kind: kind, Source: "simpulse", Nchan: 8, Pulse: 2000, Seed: uint64(51 + v),
+			Ops: ops("trig", 3, "biglen", "wfull", "trig", 0, "wait", 24+4*v, "wpause", "wunpause", "wait", 6, "wstop")},
 	}
+}
+
+// selfEnd: the Abaco source ends by itself and the client's next request is ConfigureAbacoSource (race prong only).
+func selfEnd(v int) scen.Scenario {
+	return scen.Scenario{Kind: "race", Source: "abaco", Nchan: 2 + v%2, Groups: 1 + v%2, Seed: uint64(61 + v),
+		Ops: ops("trig", v%3, "wait", 2+v, "selfend")}
 }
 
 func genOps(r *lib.Rng, nops int) []scen.Op {
@@ -178,6 +191,7 @@ func gen(seed uint64, tier string) []interface{} {
 			for _, s := range special("race", v) {
 				add(s)
 			}
+			add(selfEnd(v))
 		}
 	}
 	for i := 0; i < nconf; i++ {
@@ -351,6 +365,8 @@ var inventory = []struct {
 	{1, "nextFrameNum", regexp.MustCompile(`nextFrameNum`)},
 	{2, "eTrigPackets", regexp.MustCompile(`eTrigPackets`)},
 	{3, "frame timing", regexp.MustCompile(`LastFirmwareTimestamp|LastSubframeCount|TimestampCountsPerSubframe`)},
+	{15, "file writer state (asyncbufio)", regexp.MustCompile(`\baw\.`)},
+	{16, "sourceState", regexp.MustCompile(`sourceState`)},
 	{12, "writingState.externalTriggerNumberObserved", regexp.MustCompile(`externalTriggerNumberObserved`)},
 	{5, "block header", regexp.MustCompile(`\.nSamp|externalTriggerRowcounts|block\.err`)},
 	{13, "writingState.Paused", regexp.MustCompile(`\.Paused`)},
@@ -452,22 +468,25 @@ func raceOnce(bin string, s scen.Scenario) ([]Report, scen.Outcome, error) {
 		return nil, scen.Outcome{}, err
 	}
 	go func() { done <- cmd.Wait() }()
+	var crash error
 	select {
 	case err := <-done:
 		if err != nil {
-			return nil, scen.Outcome{}, fmt.Errorf("racer failed: %v: %s", err, tailStr(stderr.String(), 2000))
+			crash = fmt.Errorf("racer failed: %v: %s", err, tailStr(stderr.String(), 2000))
 		}
 	case <-time.After(120 * time.Second):
 		cmd.Process.Kill()
 		return nil, scen.Outcome{}, fmt.Errorf("racer did not finish within 120 s")
 	}
 	var out scen.Outcome
-	ob, err := os.ReadFile(op)
-	if err != nil {
-		return nil, out, err
-	}
-	if err := json.Unmarshal(ob, &out); err != nil {
-		return nil, out, err
+	if crash == nil {
+		ob, err := os.ReadFile(op)
+		if err != nil {
+			return nil, out, err
+		}
+		if err := json.Unmarshal(ob, &out); err != nil {
+			return nil, out, err
+		}
 	}
 	var text strings.Builder
 	files, _ := filepath.Glob(filepath.Join(dir, "race.*"))
@@ -476,7 +495,16 @@ func raceOnce(bin string, s scen.Scenario) ([]Report, scen.Outcome, error) {
 		b, _ := os.ReadFile(f)
 		text.Write(b)
 	}
-	return parseReports(text.String()), out, nil
+	reps := parseReports(text.String())
+	if crash != nil {
+		// the pipeline died under the workload (e.g. a WaitGroup misused): what the detector reported before
+		// that still counts; a crash without any report is an evaluation error
+		if len(reps) == 0 {
+			return nil, out, crash
+		}
+		out.Tags = append(out.Tags, "racer-crashed")
+	}
+	return reps, out, nil
 }
 
 func runRace(s scen.Scenario) (lib.Result, error) {
@@ -500,7 +528,7 @@ func runRace(s scen.Scenario) (lib.Result, error) {
 		for try := 0; try < 2; try++ {
 			again, _, err := raceOnce(bin, s)
 			if err != nil {
-				return res, fmt.Errorf("case %d (re-run): %v", s.ID, err)
+				continue // this re-run died without a report: it confirms nothing
 			}
 			for _, r := range again {
 				seen[r.Name] = true
@@ -544,6 +572,16 @@ func main() {
 				return runRace(s)
 			}
 			return runConf(s)
+		},
+		Crash: func(raw json.RawMessage, stderr string) (lib.Result, error) {
+			// the pipeline died under this workload (a panic in a dastard goroutine): there is no log to
+			// evaluate; rendered as a mismatch so that the other cases are still evaluated and reported
+			var s scen.Scenario
+			if err := json.Unmarshal(raw, &s); err != nil {
+				return lib.Result{}, err
+			}
+			return lib.Result{ID: s.ID, Hash: lib.Hash(s), Term: "crashed", Impl: map[string]interface{}{"crash": tailStr(stderr, 1500)},
+				Tags: []string{"kind:" + s.Kind, "source:" + s.Source, "crashed"}}, nil
 		},
 		Header:   "From Dastard Require Import Common.ZX Common.CaseLib C17.Conc C17.Model C17.Run.",
 		Verdict:  "verdict",
